@@ -279,6 +279,18 @@ def items_C06(tier, seed, P):
                     ops += [{'op': 'strong_count', 'h': 'k%d' % a}]
             its.append(dict(prop='C06', name='%s identity drops=%s' % (nm, ''.join('%s%d' % q for q in seq)), script={'ops': ops}, sym=True, oracles={'C06'},
                             opts={'panics_ok': True}, layouts=[None]))
+    its += weak_api_items('C06', tier, seed, {'C06'})
+    # raw strong-count manipulation on members of a group
+    for (n, e, nm) in [(2, [R(0, 1), R(1, 0)], 'ring2'), (2, [R(0, 1)], 'owner-target')]:
+        for tgt in range(n):
+            ops = F.build_ops(n, e, extras=True, wextras=True)
+            ops += [{'op': 'as_ptr', 'h': H(tgt), 'as': 'rp'}, {'op': 'inc_strong', 'r': 'rp'}, {'op': 'strong_count', 'h': H(tgt)}, {'op': 'inc_strong', 'r': 'rp'},
+                    {'op': 'strong_count', 'h': H(tgt)}, {'op': 'dec_strong', 'r': 'rp'}, {'op': 'strong_count', 'h': H(tgt)},
+                    {'op': 'into_raw', 'h': H(tgt), 'as': 'rr'}, {'op': 'from_raw', 'r': 'rr', 'as': H(tgt)}, {'op': 'strong_count', 'h': H(tgt)}, {'op': 'weak_count', 'h': H(tgt)},
+                    {'op': 'dec_strong', 'r': 'rp'}, {'op': 'strong_count', 'h': H(tgt)}]
+            for i in range(n):
+                ops += [{'op': 'strong_count', 'h': H(i)}]
+            its.append(dict(prop='C06', name='%s raw counts on %d' % (nm, tgt), script={'ops': ops}, sym=True, oracles={'C06'}, opts={'panics_ok': True}, layouts=[None]))
     # counts of the peers after value-cloning / value-moving APIs (make_mut clones the handles a value holds; try_unwrap moves them)
     R = lambda i, j: (i, j, True, False)
     for (n, e, nm) in [(2, [R(0, 1)], 'owner-target'), (2, [R(0, 1), R(1, 0)], 'ring2'), (3, F.named_shapes(3)['ring2+leaf'], 'ring2+leaf'), (2, [(0, 1, False, False)], 'chain-unrecorded')]:
@@ -601,7 +613,7 @@ def panic_weak_items(prop, tier, seed):
 
 def items_C05(tier, seed, P):
     return (weak_graph_items('C05', tier, seed, {'C05'}, opts={'panics_ok': True}) + consume_weak_items('C05', tier, seed)
-            + panic_weak_items('C05', tier, seed) + lemma_items('C05', ['downgrade', 'weakdrop']))
+            + panic_weak_items('C05', tier, seed) + weak_api_items('C05', tier, seed, {'C05', 'C06'}) + lemma_items('C05', ['downgrade', 'weakdrop']))
 
 
 PROPS['C05'] = dict(items=items_C05, bounds=BOUNDS_GRAPH, outside=OUTSIDE, vacuity=vac_paths('dtor', 'multi_destroy_ops', 'upgrade:some', 'upgrade:none', 'try_unwrap:ok', 'make_mut:moved'), replay_oracles=['C05'])
@@ -1561,3 +1573,32 @@ def replay_C04(P, native, rep, scratch):
 
 
 PROPS['C04']['custom_replay'] = replay_C04
+
+
+# ------------------------------------------------------------------ Weak API surface (clone, raw round trip, Weak::new) on linked and plain objects
+def weak_api_items(prop, tier, seed, oracles):
+    items = []
+    R = lambda i, j: (i, j, True, False)
+    for (n, e, nm) in [(1, [], 'plain1'), (2, [R(0, 1), R(1, 0)], 'ring2'), (2, [R(0, 1)], 'owner-target'), (1, [(0, 0, True, False)], 'selfclone1')]:
+        for variant in ('clone-first', 'raw-first'):
+            ops = F.build_ops(n, e, extras=True, wextras=True)
+            ops += [{'op': 'downgrade', 'h': H(0), 'as': 'wa'}, {'op': 'weak_new', 'as': 'wn'}]
+            steps = [[{'op': 'wclone', 'w': 'wa', 'as': 'wb'}], [{'op': 'w_into_raw', 'w': 'wa', 'as': 'ra'}, {'op': 'w_from_raw', 'r': 'ra', 'as': 'wa'}],
+                     [{'op': 'wclone', 'w': 'wn', 'as': 'wn2'}, {'op': 'w_into_raw', 'w': 'wn2', 'as': 'rn'}, {'op': 'w_from_raw', 'r': 'rn', 'as': 'wn2'}],
+                     [{'op': 'upgrade', 'w': 'wb', 'as': 'ub'}, {'op': 'strong_count', 'h': 'ub'}, {'op': 'drop', 'h': 'ub'}]]
+            if variant == 'raw-first':
+                steps = [steps[1], steps[0], steps[2], steps[3]]
+            obs = [{'op': 'weak_count', 'h': H(0)}, {'op': 'strong_count', 'h': H(0)}, {'op': 'w_strong_count', 'w': 'wa'}, {'op': 'w_weak_count', 'w': 'wa'},
+                   {'op': 'w_strong_count', 'w': 'wn'}, {'op': 'w_weak_count', 'w': 'wn'}, {'op': 'upgrade', 'w': 'wn'}]
+            for st in steps:
+                ops += st + obs
+            # the object dies while the Weak handles (and their clones) are alive, then they are released one by one
+            for i in range(n):
+                ops.append({'op': 'drop', 'h': H(i)})
+            tail = [{'op': 'w_strong_count', 'w': 'wa'}, {'op': 'w_weak_count', 'w': 'wa'}, {'op': 'upgrade', 'w': 'wa'}, {'op': 'upgrade', 'w': 'wb'}]
+            ops += tail + [{'op': 'w_into_raw', 'w': 'wb', 'as': 'rb'}, {'op': 'w_from_raw', 'r': 'rb', 'as': 'wb'}] + tail
+            ops += [{'op': 'wdrop', 'w': 'wb'}, {'op': 'w_weak_count', 'w': 'wa'}, {'op': 'wdrop', 'w': 'wn'}, {'op': 'wdrop', 'w': 'wn2'},
+                    {'op': 'drop_all_wextras', 'obj': 0}, {'op': 'w_weak_count', 'w': 'wa'}, {'op': 'wdrop', 'w': 'wa'}]
+            items.append(dict(prop=prop, name='weak-api %s %s' % (nm, variant), script={'ops': ops}, sym=True, oracles=set(oracles),
+                              opts={'panics_ok': True, 'expect_all_freed': 'C04' in oracles}, layouts=[None, ('rank', tuple(range(n)), (0, 1, 2), 'obj', True)]))
+    return items
